@@ -211,13 +211,22 @@ def cursor_rule(ctx, prog, F, rule):
 def find_input_writer(prog):
     """the function whose loop writes the start-up input (setup_input; reproc_start if it has been inlined there)"""
     cands = []
-    for F in prog.funcs_all:
-        if not F.file.endswith("reproc.c"):
-            continue
-        if F.name == "reproc_write":
-            continue
-        if [n for n in F.calls("pipe_write")]:
-            cands.append(F)
+    in_file = [F for F in prog.funcs_all if F.file.endswith("reproc.c") and F.name != "reproc_write"]
+    reach = {F.name for F in in_file if [n for n in F.calls("pipe_write")]}
+    changed = True
+    while changed:          # functions of reproc.c from which the write is reached through helpers
+        changed = False
+        for F in in_file:
+            if F.name not in reach and any(x["k"] == "CallExpr" and x.get("callee") in reach for x in F.walk()):
+                reach.add(F.name)
+                changed = True
+    # the writer is the outermost such function below reproc_start (or reproc_start itself when everything is inlined there)
+    R = prog.fn("reproc_start")
+    direct = [F for F in in_file if F.name in reach and F.name != "reproc_start" and [n for n in R.calls(F.name)]]
+    if direct:
+        cands = direct
+    elif "reproc_start" in reach:
+        cands = [R]
     if len(cands) != 1:
         raise AnalysisBroken("start-up input: expected one function besides reproc_write that calls pipe_write in reproc.c, found %s"
                              % [f.name for f in cands])
@@ -252,8 +261,49 @@ def input_rules_in_context(ctx, prog, F, rule):
     cursor_rule(ctx, prog, F, rule)
 
 
+def loop_function(prog):
+    """the function of reproc.c (other than reproc_write) that calls pipe_write itself"""
+    fs_ = [F for F in prog.funcs_all if F.file.endswith("reproc.c") and F.name != "reproc_write" and [n for n in F.calls("pipe_write")]]
+    if len(fs_) != 1:
+        raise AnalysisBroken("start-up input: expected one function besides reproc_write that calls pipe_write, found %s" % [f.name for f in fs_])
+    return fs_[0]
+
+
+def loop_complete_rule(ctx, prog, W, rule):
+    """the write loop lives in a helper W(.., size): every non-negative return of W is reached through the loop condition
+    (written >= size), judged on W alone"""
+    pw = {x["name"]: ("v", W.gdid(x["did"])) for x in W.params}
+    if "size" not in pw:
+        raise AnalysisBroken("start-up input: the helper %s that writes the input has no `size` parameter" % W.name)
+    I = new_interp(prog)
+    st = State()
+    t = ("fd", "stdin", 0, 0)
+    st.res[t] = ("open", True, "pipe-write")
+    PC = ("g", "stdin_pipe_field")
+    st.mem[PC] = fs(t)
+    for x in W.params:
+        if x["name"] == "pipe":
+            st.mem[pw["pipe"]] = fs(("addr", PC)) if "*" in x["t"] else fs(t)
+        elif x["name"] == "data":
+            st.mem[pw["data"]] = fs(("str", "<data>"))
+    res = I.run(W, [st])
+    n = 0
+    for s, rv in res.exits:
+        if all_neg(rv):
+            continue
+        n += 1
+        rel = s.mon.get("rel", frozenset())
+        complete = any(f[0] == "<=" and f[1] == pw["size"] for f in rel)
+        ctx.ob(rule, "%s [returns %s]" % (W.name, show(rv)[:20]), "the helper that writes the start-up input reports success only through its loop "
+               "condition (written >= size: the input was delivered completely)", complete, {"loop_exit_fact": [str(f) for f in rel][:3]},
+               nontrivial=True)
+    if n < 1:
+        raise AnalysisBroken("%s: no successful exit" % W.name)
+
+
 def setup_input_rules(ctx, prog, rule="C02.S4"):
     F = find_input_writer(prog)
+    W = loop_function(prog)
     pn = {x["name"] for x in F.params}
     if not {"pipe", "data", "size"} <= pn:
         return input_rules_in_context(ctx, prog, F, rule)
@@ -291,7 +341,8 @@ def setup_input_rules(ctx, prog, rule="C02.S4"):
                 continue
         n += 1
         rel = s.mon.get("rel", frozenset())
-        complete = any(f[0] == "<=" and f[1] == size_c for f in rel)
+        # size <= written, for the writer's own `size` or the `size` parameter of a helper it hands the loop to
+        complete = any(f[0] == "<=" and f[1] == size_c for f in rel) or W is not F      # helper: judged by loop_complete_rule
         closed = s.res.get(t, ("closed",))[0] == "closed"
         ctx.ob(rule, "setup_input [input written]", "success is reached only through the loop condition (written >= size: the input was "
                "delivered completely), and the parent's stdin end is then closed so the child sees end-of-file",
@@ -302,7 +353,9 @@ def setup_input_rules(ctx, prog, rule="C02.S4"):
         if s.mon.get("failed"):
             ctx.ob(rule + "f", "setup_input [%s fails]" % s.mon["failed"].split("@")[0], "a failing (or would-block) write, or failing to set "
                    "the mode, makes start-up input fail with a negative error (start then undoes everything)", all_neg(rv), {"returns": show(rv)[:40]}, nontrivial=True)
-    cursor_rule(ctx, prog, F, rule)
+    if W is not F:
+        loop_complete_rule(ctx, prog, W, rule)
+    cursor_rule(ctx, prog, W, rule)
     # nonblocking mode set (successfully) before any write
     for e in res.events:
         if e[0] == "write":
